@@ -238,7 +238,9 @@ def load_worker(analysis: Analysis, spec) -> dict:
         updates = [e for e in fe if e["name"] == "update"]
         renames = [e for e in fe if e["name"] == "os.rename"]
         removes = [e for e in fe if e["name"] == "os.remove"]
-        rows.append({"kind": kind, "exc": v.cls.__name__ if kind == "raise" else None, "exc_what": v.what if kind == "raise" else None, "loads": loads, "catches": catches, "decodes": [(e["i"], e["name"]) for e in decodes], "updates": [(e["i"], repr(e["args"])) for e in updates], "renames": [(e["i"], e["args"]) for e in renames], "removes": [(e["i"], e["args"]) for e in removes], "witness": describe_path(out, 26), "bak_key": bak_key, "pf_key": pf_key})
+        LOAD_OPS = {"os.path.isfile", "os.path.exists", "os.access", "os.rename", "os.replace", "builtins.open", "os.remove", "os.unlink", "pickle.load", "json.load", "with_enter", "with_exit", "update", "os.path.realpath", "os.path.splitext", "os.path.dirname", "os.path.basename", "os.path.join", "os.path.getsize", "file.read", "file.close"}
+        other_ops = sorted({e["name"] for e in fe if e["name"] not in LOAD_OPS})
+        rows.append({"kind": kind, "other_ops": other_ops, "exc": v.cls.__name__ if kind == "raise" else None, "exc_what": v.what if kind == "raise" else None, "loads": loads, "catches": catches, "decodes": [(e["i"], e["name"]) for e in decodes], "updates": [(e["i"], repr(e["args"])) for e in updates], "renames": [(e["i"], e["args"]) for e in renames], "removes": [(e["i"], e["args"]) for e in removes], "witness": describe_path(out, 26), "bak_key": bak_key, "pf_key": pf_key})
     return {"ext": ext, "ctx": ctx.name, "rows": rows}
 
 
@@ -247,10 +249,15 @@ def analyse_load_rows_c12(res: RuleResult, summ) -> None:
     n_fallback = 0
     for r in summ["rows"]:
         loads = r["loads"]
-        if not loads:
-            continue
         main_attempts = [l for l in loads if not l["bak"]]
         bak_attempts = [l for l in loads if l["bak"]]
+        # start-up loading performs the reviewed file operations only: any further one is a new way for start-up to
+        # fail with an OSError that nothing here handles
+        res.add("C12-R4", f"safe_load_sensors[{ext}] / loading performs no file operation beyond test, promote, read and remove", not r.get("other_ops"), "mysensors/persistence.py", "isfile / access / rename / open / load / remove only" if not r.get("other_ops") else f"the load path also calls {r['other_ops']}: its OSError (e.g. os.open('') for a bare file name) escapes safe_load_sensors and start-up although the files themselves are usable", r["witness"] if r.get("other_ops") else None)
+        # no path gives up without even trying the main file (the backup is consulted from there)
+        if not loads:
+            res.add("C12-R4", f"safe_load_sensors[{ext}] / every start attempts to load (main, then backup)", False, "mysensors/persistence.py", "a path returns without calling _load_sensors at all (e.g. when the main file does not exist): a backup left by an interrupted save is never looked at", r["witness"])
+            continue
         # the backup is the only other copy: nothing may remove or move it before the backup attempt begins
         first_bak_i = bak_attempts[0]["i"] if bak_attempts else 10**9
         early = [(i, a) for i, a in r["removes"] + r["renames"] if a and r["bak_key"] in a and i < first_bak_i]
